@@ -394,7 +394,7 @@ func (e *Engine) invCtx(fr *Frame, st *State) *EvalCtx {
 func (e *Engine) checkInvariant(fr *Frame, st *State, ord int, inv []*Clause, which string) {
 	ctx := e.invCtx(fr, st)
 	for _, cl := range inv {
-		if !hasTag(cl.Tags, e.curTags) {
+		if !hasTag(cl.Tags, e.curTags) || (cl.Case != 0 && cl.Case != e.curCase) {
 			continue
 		}
 		g := ctx.boolean(cl.E)
@@ -406,6 +406,9 @@ func (e *Engine) checkInvariant(fr *Frame, st *State, ord int, inv []*Clause, wh
 func (e *Engine) assumeInvariant(fr *Frame, st *State, ord int, inv []*Clause) {
 	ctx := e.invCtx(fr, st)
 	for _, cl := range inv {
+		if cl.Case != 0 && cl.Case != e.curCase {
+			continue
+		}
 		ctx.assume(cl.E)
 	}
 }
